@@ -405,6 +405,24 @@ func report(prop, tier string, seed int, jobs []job, results []*ExploreResult, l
 		}
 	}
 
+	// native sampling of harnesses that ask for it (validates trusted parts against the real build)
+	sweepRuns := 0
+	for h := range hs {
+		if h.Sweep > 0 && !noReplay {
+			var ld *Loaded
+			for _, l := range lds {
+				if _, ok := l.harnesses[h.Name]; ok {
+					ld = l
+				}
+			}
+			n, ok, out := nativeSweep(ld, h, h.Instances, h.Sweep, seed+1)
+			sweepRuns += n
+			if !ok {
+				inconcl = append(inconcl, "native sweep of "+h.Name+" failed: "+firstLine(lastLines(out, 6)))
+				os.WriteFile(filepath.Join(verifDir, "replays", prop+"-sweep.log"), []byte(out), 0o644)
+			}
+		}
+	}
 	// classify violations: known findings vs new
 	exit := 0
 	nNew := 0
@@ -508,7 +526,8 @@ func report(prop, tier string, seed int, jobs []job, results []*ExploreResult, l
 		Coverage: map[string]interface{}{
 			"states":                        totalBlocks,
 			"transitions":                   totalInstr,
-			"traces_validated_against_impl": replays,
+			"traces_validated_against_impl": replays + sweepRuns,
+			"native_sweep_runs":             sweepRuns,
 			"samples":                       samples,
 			"evaluations":                   totalPaths,
 			"distinct_nontrivial":           byKind["done"] + byKind["panic"] + byKind["deadlock"],
@@ -640,4 +659,12 @@ func mergeResults(rs []*ExploreResult) *ExploreResult {
 	sort.Strings(m.Intrinsics)
 	sort.Strings(m.Cuts)
 	return m
+}
+
+func lastLines(s string, n int) string {
+	ls := strings.Split(strings.TrimSpace(s), "\n")
+	if len(ls) > n {
+		ls = ls[len(ls)-n:]
+	}
+	return strings.Join(ls, " | ")
 }
